@@ -29,6 +29,7 @@ def check(repo, rep, tier):
     rc.r_items_immutable(m, rep, 'R9.2')
     rc.r_chart(m, rep, 'R9.2')
     rp.r_config_plumbing(repo, rep, 'R9.1')
+    rp.r_score_buffers(repo, rep, 'R9.1')     # the scores that are summed are the caller's: the matrices are read with the layout they really have
     rc.r_backpointers(m, rep, 'R9.2')
     for s in m.by_kind.get('goal', []):
         from ..parse_model import LIT
